@@ -2,6 +2,7 @@
   Proofs/C10/ProtoClosure — the kernel-checked facts about the compiled protocol matcher
   `Gen.ProtoSmack.tbl` (regenerated from the running code on every run):
   range facts, and closure of the row annotation `annN` against `Spec.sigsK2`.
+  Nothing here depends on the number of rows or the match limit of the compiled table.
   `annN` is only a witness; regenerate it with `#eval annHex protoTbl sigsK2` if the table changes.
 -/
 import Masscanned.Gen.ProtoAnn
@@ -16,16 +17,24 @@ set_option maxRecDepth 100000
 
 theorem proto_wfCheck : wfCheck protoTbl Gen.ProtoSmack.nrows = true := by decide +kernel
 
-theorem proto_rows_a : okRows protoTbl sigsK2 annN 0 10 = true := by decide +kernel
-theorem proto_rows_b : okRows protoTbl sigsK2 annN 10 40 = true := by decide +kernel
-theorem proto_rows_c : okRows protoTbl sigsK2 annN 50 40 = true := by decide +kernel
-theorem proto_rows_d : okRows protoTbl sigsK2 annN 90 40 = true := by decide +kernel
-theorem proto_rows_e : okRows protoTbl sigsK2 annN 130 40 = true := by decide +kernel
+/-- the non-match rows are checked in blocks (one kernel evaluation each, to keep every lemma fast);
+    the block bounds are computed from the generated `matchLimit`, no row count is written down:
+    blocks of 40 rows up to row 250, one last block for whatever is left -/
+abbrev ML : Nat := protoTbl.matchLimit
+
+theorem proto_rows_a : okRows protoTbl sigsK2 annN 0 (min 10 ML) = true := by decide +kernel
+theorem proto_rows_b : okRows protoTbl sigsK2 annN 10 (min 40 (ML - 10)) = true := by decide +kernel
+theorem proto_rows_c : okRows protoTbl sigsK2 annN 50 (min 40 (ML - 50)) = true := by decide +kernel
+theorem proto_rows_d : okRows protoTbl sigsK2 annN 90 (min 40 (ML - 90)) = true := by decide +kernel
+theorem proto_rows_e : okRows protoTbl sigsK2 annN 130 (min 40 (ML - 130)) = true := by decide +kernel
+theorem proto_rows_f : okRows protoTbl sigsK2 annN 170 (min 40 (ML - 170)) = true := by decide +kernel
+theorem proto_rows_g : okRows protoTbl sigsK2 annN 210 (min 40 (ML - 210)) = true := by decide +kernel
+theorem proto_rows_h : okRows protoTbl sigsK2 annN 250 (ML - 250) = true := by decide +kernel
 
 theorem proto_cnt_le_one_check :
     allBelow (fun r => Nat.ble (protoTbl.cnt r) 1) Gen.ProtoSmack.nrows = true := by decide +kernel
 
-theorem proto_matchLimit : protoTbl.matchLimit = 170 := by decide
+theorem proto_base_lt : baseState < protoTbl.matchLimit := by decide
 
 theorem proto_init : decodeR sigsK2 (annOf annN baseState) = sigsK2 := by decide +kernel
 
@@ -39,25 +48,36 @@ def protoAR (row : Nat) : RState := decodeR sigsK2 (annOf annN row)
 theorem proto_wf : WF protoTbl Gen.ProtoSmack.nrows := wf_of_check _ _ proto_wfCheck
 
 theorem proto_closed : Closed protoTbl protoAR := by
-  apply closed_of_okRows protoTbl sigsK2 annN [(0, 10), (10, 40), (50, 40), (90, 40), (130, 40)]
+  apply closed_of_okRows protoTbl sigsK2 annN
+    [(0, min 10 ML), (10, min 40 (ML - 10)), (50, min 40 (ML - 50)), (90, min 40 (ML - 90)),
+     (130, min 40 (ML - 130)), (170, min 40 (ML - 170)), (210, min 40 (ML - 210)), (250, ML - 250)]
   · intro p hp
     simp only [List.mem_cons, List.not_mem_nil, or_false] at hp
-    rcases hp with rfl | rfl | rfl | rfl | rfl
+    rcases hp with rfl | rfl | rfl | rfl | rfl | rfl | rfl | rfl
     · exact proto_rows_a
     · exact proto_rows_b
     · exact proto_rows_c
     · exact proto_rows_d
     · exact proto_rows_e
+    · exact proto_rows_f
+    · exact proto_rows_g
+    · exact proto_rows_h
   · intro row hr
-    rw [proto_matchLimit] at hr
+    have hr' : row < ML := hr
     by_cases h1 : row < 10
-    · exact ⟨(0, 10), by simp, by simp, by simpa using h1⟩
+    · exact ⟨(0, min 10 ML), by simp, by simp, by simp only; omega⟩
     by_cases h2 : row < 50
-    · exact ⟨(10, 40), by simp, by simp; omega, by simp; omega⟩
+    · exact ⟨(10, min 40 (ML - 10)), by simp, by simp only; omega, by simp only; omega⟩
     by_cases h3 : row < 90
-    · exact ⟨(50, 40), by simp, by simp; omega, by simp; omega⟩
+    · exact ⟨(50, min 40 (ML - 50)), by simp, by simp only; omega, by simp only; omega⟩
     by_cases h4 : row < 130
-    · exact ⟨(90, 40), by simp, by simp; omega, by simp; omega⟩
-    · exact ⟨(130, 40), by simp, by simp; omega, by simp; omega⟩
+    · exact ⟨(90, min 40 (ML - 90)), by simp, by simp only; omega, by simp only; omega⟩
+    by_cases h5 : row < 170
+    · exact ⟨(130, min 40 (ML - 130)), by simp, by simp only; omega, by simp only; omega⟩
+    by_cases h6 : row < 210
+    · exact ⟨(170, min 40 (ML - 170)), by simp, by simp only; omega, by simp only; omega⟩
+    by_cases h7 : row < 250
+    · exact ⟨(210, min 40 (ML - 210)), by simp, by simp only; omega, by simp only; omega⟩
+    · exact ⟨(250, ML - 250), by simp, by simp only; omega, by simp only; omega⟩
 
 end Masscanned.C10
